@@ -53,6 +53,7 @@ template <typename K, typename V> using MMap = std::unordered_map<K, V, std::has
 constexpr int64_t SEC = 1000000000LL;
 constexpr int64_t COOL = 64 * SEC;
 constexpr int64_t MARGIN = 1000000;  // a kept snapshot is only used if at least 1 ms of its guarantee is left
+int64_t g_margin = MARGIN;            // 10 s in plans with small clock jumps inside operations (each <= 3 s)
 constexpr size_t MAXI = 512;
 constexpr uint64_t MAGIC = 0xE1E2E3E4C0FFEE00ULL, DEAD = 0xDEADDEADDEADDEADULL, VALUE_OBJ = 0x7A1E0B1EC7000000ULL;
 inline uint64_t magic_of(const void* p) { return MAGIC ^ ((uint64_t)(uintptr_t)p * 0x9E3779B97F4A7C15ULL); }
@@ -213,7 +214,7 @@ bool guaranteed(const void* table) {
   auto it = S->tables.find((uintptr_t)table);
   if (it == S->tables.end()) return true;
   if (it->second.superseded < 0) return true;
-  return now_ns() + MARGIN < it->second.superseded + COOL;
+  return now_ns() + g_margin < it->second.superseded + COOL;
 }
 bool superseded(const void* table) {
   auto it = S->tables.find((uintptr_t)table);
@@ -376,6 +377,14 @@ struct Runner {
       case K_JUMP: {
         // only generated in modes 2 and 3
         int64_t ns = (int64_t)std::max<int64_t>(0, std::min<int64_t>(o.a, 400)) * SEC;
+        if (o.b == 2) {
+          // default mix: a short preemption of everybody (0.1 - 3 s) wherever the
+          // threads happen to be; far below the cooling period, so every
+          // guarantee still applies, but unit boundaries are crossed mid-operation
+          sim::clock_jump((int64_t)std::max<int64_t>(1, std::min<int64_t>(o.a, 3000)) * 1000000);
+          probe("small_clock_jump_inside_operation");
+          break;
+        }
         if (o.b == 0) {  // mode 3: wherever the other threads happen to be
           sim::clock_jump(ns);
           probe("clock_jump_inside_round");
@@ -596,6 +605,30 @@ void gen(Rng& r, Plan& p, const GenParams& gp) {
     }
     return;
   }
+  bool small_jumps = !stalled && r.chance(1, 3);
+  p.cfg["small_jumps"] = small_jumps;
+  if (!stalled && r.chance(1, 8)) {
+    // targeted shape: gc() calls of one thread race with a short clock jump that
+    // crosses a 64 s unit boundary and with a growth (retirement) by another thread
+    p.cfg["small_jumps"] = 1;
+    p.cfg["rounds"] = 1;
+    p.cfg["t0"] = (int64_t)r.range(3, 5000) * COOL - (int64_t)r.range(200, 1500) * 1000000;
+    p.cfg["policy"] = r.chance(1, 2) ? 2 : (r.chance(1, 2) ? 3 : 1);
+    p.threads.resize(4);
+    auto add = [&](int t, int kind, int64_t a, int64_t b) { Op o; o.kind = kind; o.a = a; o.b = b; o.c = 0; o.id = opid++; p.threads[(size_t)t].push_back(o); };
+    add(1, K_ENSURE, (int64_t)bs, 2);
+    add(1, K_SNAPSHOT, (int64_t)bs, 0);
+    for (int i = 0; i < 4; i++) add(1, K_GC, 0, 0);
+    add(1, K_SNAP_USE, 0, 0);
+    add(2, K_JUMP, (int64_t)r.range(1600, 3000), 2);
+    add(2, K_ENSURE, (int64_t)bs * 3, 2);
+    add(2, K_ENSURE, (int64_t)bs * 6, 2);
+    add(3, K_SNAPSHOT, (int64_t)bs, 0);
+    add(3, K_ENSURE, (int64_t)bs * 2, 2);
+    add(3, K_SNAP_USE, 0, 0);
+    add(3, K_GC, 0, 0);
+    return;
+  }
   p.threads.resize((size_t)nthreads + 1);
   for (int t = 1; t <= nthreads; t++) {
     int nops = (int)r.range(3, gp.thorough ? 10 : 8);
@@ -621,12 +654,14 @@ void gen(Rng& r, Plan& p, const GenParams& gp) {
       else if (k < 97) { o.kind = K_SIZE; }
       else { o.kind = K_RECHECK; }
       if (stalled && r.chance(1, 6)) { o.kind = K_JUMP; o.a = (int64_t)r.range(65, 200); o.b = 0; }
+      if (small_jumps && r.chance(1, 5)) { o.kind = K_JUMP; o.a = (int64_t)r.range(100, 3000); o.b = 2; }
       p.threads[(size_t)t].push_back(o);
     }
   }
 }
 
 void run(const Plan& p) {
+  g_margin = p.get("small_jumps", 0) ? 10 * SEC : MARGIN;
   S = new (malloc(sizeof(State))) State();
   for (auto& a : S->addr_of) a = nullptr;
   for (auto& t : S->touch) t = nullptr;
@@ -644,4 +679,4 @@ const char* const kShrink[] = {"rounds", "jump1", "jump2", nullptr};
 
 }  // namespace
 
-const Harness sim::g_harness = {"cvector", kNames, gen, run, kShrink, 1};
+const Harness sim::g_harness = {"cvector", kNames, gen, run, kShrink, 20};
